@@ -39,7 +39,8 @@ GROUPS: dict[str, list[tuple[str, str]]] = {
     # Generated/ConstraintFns, Props/ConstraintTie); _make_constraint's shape is pinned by Glue.makeConstraint_shape
     "constraint": [("constraints.py", "Constraint.get_variables"), ("constraints.py", "_make_constraint")],
     "vecmat": [("core/vectors.py", "VectorVariable"), ("core/matrices.py", "MatrixVariable")],
-    "parameter": [("core/parameters.py", "Parameter"), ("core/parameters.py", "_as_parameter_value")],
+    # the scalar Parameter class and _as_parameter_value are translated (py2lean_param.py -> Generated/ParamClass, Props/ParamTie)
+    "parameter": [],
     # __init__, _invalidate_caches, minimize, maximize, subject_to, _is_linear_problem, n_variables, get_bounds are translated
     # (py2lean_state.py -> Generated/ProblemEdit, Props/StateTie) and therefore not anchored
     "problem_edit": [("problem.py", f"Problem.{m}") for m in ("_validate_expression", "_validate_constraint",
